@@ -89,7 +89,9 @@ def regen(prop_cfg):
         info["status"] = {}
         info["error"] = str(e)
     # runtime tables need toasty importable
-    rc2, out2, err2 = sh([VENV_PY, "-m", "vf.extract.tables"], cwd=VERIF, timeout=300)
+    pp = [VERIF] + ([REPO] if os.path.realpath(REPO) != "/repo" else []) + [os.environ.get("PYTHONPATH", "")]
+    rc2, out2, err2 = sh([VENV_PY, "-m", "vf.extract.tables"], cwd=VERIF, timeout=300,
+                         env={"PYTHONPATH": os.pathsep.join(x for x in pp if x), "TOASTY_REPO": REPO})
     info["tables_rc"] = rc2
     if rc2 != 0:
         info["tables_err"] = (out2 + err2)[-2000:]
